@@ -101,8 +101,12 @@ func writeViolation(eng *Eng, id string, o *Obligation, replay bool) violationPa
 	dir := filepath.Join(verifDir, "replay", "out")
 	os.MkdirAll(dir, 0o755)
 	file := filepath.Join(dir, sanitize(id+"__"+o.Name)+".txt")
+	if o.task != nil && o.task.name != o.Fn && !strings.HasPrefix(o.Name, o.task.name) {
+		// the same obligation of an inlined callee can arise under several functions: one file per context
+		file = filepath.Join(dir, sanitize(id+"__"+o.Name+"__in__"+o.task.name)+".txt")
+	}
 	var b strings.Builder
-	fmt.Fprintf(&b, "property:    %s\nobligation:  %s\nkind:        %s\nfunction:    %s\nclause:      %s\nsource:      %s\nverdict:     %s (by %s, %d ms)\n", id, o.Name, o.Kind, o.Fn, o.Expr, o.Src, o.Result.Status, o.Result.Solver, o.Result.Millis)
+	fmt.Fprintf(&b, "property:    %s\nobligation:  %s\nverified in: %s\nkind:        %s\nfunction:    %s\nclause:      %s\nsource:      %s\nverdict:     %s (by %s, %d ms)\n", id, o.Name, o.task.name, o.Kind, o.Fn, o.Expr, o.Src, o.Result.Status, o.Result.Solver, o.Result.Millis)
 	status := "no-failing-input-found"
 	if o.Result.Status == "sat" {
 		b.WriteString("\ncounter-model (inputs of the function under contract):\n")
